@@ -1,5 +1,6 @@
 """ Creating worklist files for the Tecan Freedom EVO.
 """
+import collections.abc
 import logging
 import math
 from pathlib import Path
@@ -460,6 +461,54 @@ class BaseWorklist(list):
         )
         return
 
+    def _validate_well_records(
+        self,
+        labware: liquidhandling.Labware,
+        wells: Sequence[str],
+        volumes: Sequence[float],
+        label: Optional[str],
+        kwargs: dict,
+    ) -> None:
+        """Raises what `comment`, `aspirate_well` or `dispense_well` would raise for these arguments,
+        so that a call that is going to be refused neither changes a labware nor leaves records behind."""
+        if isinstance(kwargs.get("tip"), collections.abc.Iterator):
+            # a one-shot iterable can be read only once, but is needed for every record
+            kwargs["tip"] = tuple(kwargs["tip"])
+        if label and ";" in label:
+            raise ValueError("Illegal semicolon in comment.")
+
+        def check(
+            rack_label,
+            position,
+            volume,
+            *,
+            liquid_class="",
+            tip=Tip.Any,
+            rack_id="",
+            tube_id="",
+            rack_type="",
+            forced_rack_type="",
+        ):
+            prepare_aspirate_dispense_parameters(
+                rack_label,
+                position,
+                volume,
+                liquid_class,
+                tip,
+                rack_id,
+                tube_id,
+                rack_type,
+                forced_rack_type,
+                max_volume=self.max_volume,
+            )
+
+        # the rack label and the pass-through arguments are the same for every record
+        check(labware.name, 1, 0, **kwargs)
+        for well, volume in zip(wells, volumes):
+            if volume > 0 and well in labware.indices:
+                check(labware.name, self._get_well_position(labware, well), volume, **kwargs)
+        return
+
     def aspirate(
         self,
         labware: liquidhandling.Labware,
@@ -490,6 +539,7 @@ class BaseWorklist(list):
         volumes = numpy.array(volumes).flatten("F")
         if len(volumes) == 1:
             volumes = numpy.repeat(volumes, len(wells))
+        self._validate_well_records(labware, wells, volumes, label, kwargs)
         labware.remove(wells, volumes, label)
         self.comment(label)
         for well, volume in zip(wells, volumes):
@@ -530,6 +580,7 @@ class BaseWorklist(list):
         volumes = numpy.array(volumes).flatten("F")
         if len(volumes) == 1:
             volumes = numpy.repeat(volumes, len(wells))
+        self._validate_well_records(labware, wells, volumes, label, kwargs)
         labware.add(wells, volumes, label, compositions=compositions)
         self.comment(label)
         for well, volume in zip(wells, volumes):
